@@ -235,7 +235,11 @@ def eval_expr(e, window, orc, ties=None):
 
 # ------------------------------------------------------------------------------------------ reading a run
 class Ev:
-    __slots__ = ("kind", "t", "id", "code", "orc", "out", "before", "after", "until", "idx", "extra", "syn")
+    __slots__ = ("kind", "t", "id", "code", "orc", "out", "before", "after", "until", "idx", "extra", "syn", "rec_only")
+
+    def __init__(self):
+        self.rec_only = False
+        self.syn = False
 
 
 def kvget(f, key, default=None):
@@ -292,6 +296,23 @@ def read_run(ops, outs):
                 evs.append(e)
             parked = None
             continue
+        if f[0] == "finish2" and o.startswith("unparked ") and len(f) >= 5:
+            # both responses were recorded (no breaker lock needed), then the parked request was decided (it held the lock and its
+            # decision cannot move the state here), then the two checkAndSet ran: one evaluation over both records
+            g = o.split()
+            ok = len(g) >= 6 and g[2] == "done2" and g[1] in ("pass", "fallback") and g[5] in ("standby", "tripped", "recovering")
+            e = Ev()
+            e.kind, e.t, e.idx, e.id, e.code, e.orc, e.until, e.before, e.after = "start", now, i, parked, None, [], None, state, state
+            e.out = (g[1] if ok else "lost") + " " + state
+            e.extra = "" if ok else "unreadable:" + o
+            evs.append(e)
+            parked = None
+            e = Ev()
+            e.kind, e.t, e.idx, e.id, e.code, e.orc, e.until, e.before, e.after = "finish", now, i, f[1], int(f[2]), [], None, state, state
+            e.out, e.extra, e.rec_only = "done %s %s" % (f[2], state), "", True
+            evs.append(e)
+            f = ["finish", f[3], f[4]] + f[5:]
+            o = "done " + " ".join(g[4:]) if ok else o
         if f[0] == "finish" and o.startswith("unparked "):
             # the parked request was decided first (it held the lock), then the completion went on
             g = o.split()
@@ -513,6 +534,8 @@ def evaluations(cfg, evs, expr, ties=None, lat=None):
         if e.kind != "finish":
             continue
         log.append((e.t, e.code))
+        if e.rec_only:
+            continue        # recorded only: its checkAndSet ran after the next record (and cannot be a second evaluation)
         is_eval = next_check is None or e.t > next_check
         verdict = None
         if is_eval:
@@ -564,6 +587,8 @@ def latency_bounds(cfg, evs):
             last_roll = e.t
         if lat_us < HDR_LIMIT:
             buckets[idx].append(lat_us)
+        if e.rec_only:
+            continue
         vals = sorted(v for b in buckets for v in b)
         bounds = []
         for q in cfg["qs"]:
@@ -895,6 +920,15 @@ def park_retrip(rng):
         a = b.start()
         b.lines.append("park-warn 0")
         b.adv(cp + 1)
+        if rng.random() < 0.5 and len(held) >= 2:
+            # two of them complete "at once": both responses are recorded before either checkAndSet gets the lock.  Which of the
+            # held requests were passed is not known here: every pair is tried, the first pair in flight does it (the others are
+            # `bad-op` on both sides and dropped after the annotation pass)
+            import itertools
+            pairs = list(itertools.combinations(held, 2))
+            rng.shuffle(pairs)
+            for j1, j2 in pairs[:12]:
+                b.lines.append("finish2 %s %d %s %d" % (j1, rng.choice([200, 200, 502, 504]), j2, rng.choice([502, 504, 200])))
         for j in held:
             b.finish(j, rng.choice([502, 504, 502, 504, 200]))   # the first due failure re-trips
         t = b.now
@@ -1161,6 +1195,8 @@ def describe(ops, outs, hist):
     for l, o in zip(ops, outs):
         if o == "parked":
             hist["park:parked"] += 1
+        elif o.startswith("unparked ") and l.startswith("finish2"):
+            hist["park:record-record-check-check"] += 1
         elif o.startswith("unparked ") and l.startswith("start"):
             hist["park:decided-before-second-arrival"] += 1
         elif o.startswith("unparked "):
